@@ -103,7 +103,7 @@ register(
         assumptions=ASSUME,
     )
 )
-seq_spec("C10", P.sweep_C10, 4000, 50000, final=P.final_C10, extend_case=P.extend_C10, rule="seeded link histories, then token chains for every webentity x source-page counts x 3 switch settings compared with the unpaginated answer of the same index; non-trivial when a chain needs >= 3 calls; distinct = distinct event digests")
+seq_spec("C10", P.sweep_C10, 3000, 50000, final=P.final_C10, extend_case=P.extend_C10, rule="seeded link histories, then token chains for every webentity x source-page counts x 3 switch settings compared with the unpaginated answer of the same index; non-trivial when a chain needs >= 3 calls; distinct = distinct event digests")
 
 # ---------------------------------------------------------------------------
 from . import queries as QQ
